@@ -440,11 +440,13 @@ pub struct RunOpts {
     pub want_vars: bool,
     /// seed override for the crate's random generator (None = leave the crate alone)
     pub seed: Option<u64>,
+    /// keep calling next() after a runtime error item
+    pub continue_after_error: bool,
 }
 
 impl Default for RunOpts {
     fn default() -> Self {
-        RunOpts { max_next: 2000, extra_after_end: 0, want_vars: false, seed: Some(0) }
+        RunOpts { max_next: 2000, extra_after_end: 0, want_vars: false, seed: Some(0), continue_after_error: false }
     }
 }
 
@@ -515,9 +517,13 @@ fn run_with<D: HasCore>(tc: &TestCase, mut driver: D, opts: &RunOpts) -> RealRun
                             }
                         }
                         Ok(Some(Err(e))) => {
-                            run.items.push(iter_err(&e, |d| d.id));
+                            let item = iter_err(&e, |d| d.id);
+                            let go_on = opts.continue_after_error && matches!(item, RealItem::RuntimeErr(_));
+                            run.items.push(item);
                             run.vars.push(None);
-                            break;
+                            if !go_on {
+                                break;
+                            }
                         }
                     }
                 }
